@@ -28,28 +28,38 @@ def bech32Char (d : Nat) : Char := bech32Charset.getD d '?'
 def hrpExpand (hrp : List Char) : List Nat :=
   hrp.map (fun c => c.toNat / 32) ++ [0] ++ hrp.map (fun c => c.toNat % 32)
 
-/-- MSB-first bits of a `w`-bit value -/
-def bitsOf (w v : Nat) : List Bool := (List.range w).reverse.map (fun i => v.testBit i)
-def ofBits (bs : List Bool) : Nat := bs.foldl (fun a b => 2 * a + b.toNat) 0
+/-- MSB-first bits of the low `w` bits of `v` -/
+def bitsOf : Nat → Nat → List Bool
+  | 0, _ => []
+  | w + 1, v => v.testBit w :: bitsOf w v
+
+/-- value of an MSB-first bit list -/
+def ofBits : List Bool → Nat
+  | [] => 0
+  | b :: l => b.toNat * 2 ^ l.length + ofBits l
 
 def chunksOf (w : Nat) (fuel : Nat) (bs : List Bool) : List (List Bool) :=
   match fuel with
   | 0 => []
   | f+1 => if bs.isEmpty ∨ w = 0 then [] else bs.take w :: chunksOf w f (bs.drop w)
 
+/-- values → bit stream, bit stream → values (`w` bits each, most significant bit first) -/
+def toBits (w : Nat) (vals : List Nat) : List Bool := vals.flatMap (bitsOf w)
+def fromBits (w : Nat) (bits : List Bool) : List Nat := (chunksOf w (bits.length + 1) bits).map ofBits
+
 /-- `convertbits(data, from, to, pad=True)` -/
 def convertBitsPad (frm to : Nat) (data : List Nat) : List Nat :=
-  let bits := data.flatMap (bitsOf frm)
+  let bits := toBits frm data
   let padn := (to - bits.length % to) % to
-  (chunksOf to (bits.length + 1) (bits ++ List.replicate padn false)).map ofBits
+  fromBits to (bits ++ List.replicate padn false)
 
 /-- `convertbits(data, from, to, pad=False)`; `none` = "Invalid padding bits" -/
 def convertBitsNoPad (frm to : Nat) (data : List Nat) : Option (List Nat) :=
-  let bits := data.flatMap (bitsOf frm)
+  let bits := toBits frm data
   let full := bits.length / to
   let rest := bits.drop (full * to)
   if rest.length ≥ frm ∨ rest.any id then none
-  else some ((chunksOf to (bits.length + 1) (bits.take (full * to))).map ofBits)
+  else some (fromBits to (bits.take (full * to)))
 
 def checksumConst (witver : Nat) : Nat := if witver = 0 then bech32Const else bech32mConst
 
